@@ -53,7 +53,43 @@ type c06Hop struct {
 	// More (C06 only): non-empty = the retrying entry point (ObtainCertAsync / RenewCertAsync); the issuers'
 	// answers of the 2nd, 3rd ... attempt (Orc = first attempt). A failure in the last listed attempt is final.
 	More []c06Oracle `json:"more,omitempty"`
+	// Cancel (C06 only): the retrying entry point is called with a context that is cancelled: "pre" = before the
+	// call, "backoff" = by the first failing issuer answer. Ran = attempts seen to run (observed; the select
+	// between the zero back-off timer and ctx.Done() is a race).
+	Cancel string `json:"cancel,omitempty"`
+	Ran    int    `json:"ran,omitempty"`
 }
+
+// c06AttemptsRun: how many attempts of a retrying call ran = issuer calls on the issuer that was asked first.
+func c06AttemptsRun(o c06Obs) int {
+	first, n := int64(-1), 0
+	for _, ev := range o.logEnc {
+		if ev[0] != 1 {
+			continue
+		}
+		if first < 0 {
+			first = ev[1]
+		}
+		if ev[1] == first {
+			n++
+		}
+	}
+	return n
+}
+
+// c06CallCtx: the context of one operation; for cancel steps it is cancelled up front or by the issuer double.
+func (w *c06World) c06CallCtx(ctx context.Context, h c06Hop) (context.Context, context.CancelFunc) {
+	c2, cancel := context.WithCancel(ctx)
+	w.cancelOnFail = nil
+	switch h.Cancel {
+	case "pre":
+		cancel()
+	case "backoff":
+		w.cancelOnFail = cancel
+	}
+	return c2, cancel
+}
+
 type c06Cfg struct {
 	N       int    `json:"n"`
 	Reuse   bool   `json:"reuse"`
@@ -127,12 +163,13 @@ type c06World struct {
 	stapleSer map[string]int
 	// the chain each issuance returned (digest of the PEM bytes, number of certificates): what is stored
 	// and what is loaded back must be these very bytes
-	chainDigest map[int]string
-	chainBlocks map[int]int
-	orc         *c06Oracle
-	more        []c06Oracle
-	inst        int
-	curInst     string
+	chainDigest  map[int]string
+	chainBlocks  map[int]int
+	orc          *c06Oracle
+	more         []c06Oracle
+	cancelOnFail context.CancelFunc
+	inst         int
+	curInst      string
 
 	plan         *c06Plan
 	cnt          int
@@ -223,6 +260,9 @@ func (i *c06Issuer) Issue(ctx context.Context, csr *x509.CertificateRequest) (*c
 	if !out.Up {
 		w.note("IssueFail", fmt.Sprintf("%d:%d", i.idx, kid))
 		if !final {
+			if w.cancelOnFail != nil {
+				w.cancelOnFail() // the context is cancelled while doWithRetry is about to back off
+			}
 			return nil, errors.New("issuer down (harness), try again")
 		}
 		return nil, certmagic.ErrNoRetry{Err: errors.New("issuer down (harness)")}
@@ -503,14 +543,18 @@ func (w *c06World) runHop(h c06Hop, plan *c06Plan, doProbe bool) c06Obs {
 		}()
 		switch h.Op {
 		case "obtain":
-			if len(h.More) > 0 {
-				err = cfg.ObtainCertAsync(ctx, w.subj.Spelling)
+			if len(h.More) > 0 || h.Cancel != "" {
+				c2, cancel2 := w.c06CallCtx(ctx, h)
+				err = cfg.ObtainCertAsync(c2, w.subj.Spelling)
+				cancel2()
 			} else {
 				err = cfg.ObtainCertSync(ctx, w.subj.Spelling)
 			}
 		case "renew":
-			if len(h.More) > 0 {
-				err = cfg.RenewCertAsync(ctx, w.subj.Spelling, h.Force)
+			if len(h.More) > 0 || h.Cancel != "" {
+				c2, cancel2 := w.c06CallCtx(ctx, h)
+				err = cfg.RenewCertAsync(c2, w.subj.Spelling, h.Force)
+				cancel2()
 			} else {
 				err = cfg.RenewCertSync(ctx, w.subj.Spelling, h.Force)
 			}
